@@ -512,7 +512,7 @@ class Evaluator:
             exits += exits2
             after += after2
             body_states += [('back2', b) for b in back2]
-            summary_head = head.env
+            summary_head = dict(head.env)
         res = list(exits)
         for a in after:
             a.loops.append(LoopSummary(s, 'while', None, None, body_states, summary_head, dict(st0.env)))
@@ -563,9 +563,10 @@ class Evaluator:
             head = self._assign(s.target, var, head, mod, fi, depth, ln)
             self._range_facts(var, it, head)
             head.trace.append('%d:for %s in %s' % (ln, unparse(s.target), show(it)[:60]))
+            head_env = dict(head.env)      # states are updated in place: keep the head snapshot
             body_states = []
             after = []
-            for e in self._block(s.body, head, fi, depth):
+            for e in self._block(s.body, head.copy(), fi, depth):
                 if e.kind in ('fall', 'continue'):
                     body_states.append(('back', e.state))
                 elif e.kind == 'break':
@@ -576,7 +577,7 @@ class Evaluator:
             # state after the loop: zero or more iterations -> modified variables are arbitrary.
             # Variables not modified keep their values; path conditions of the body are dropped.
             post = self._havoc(s1, modified, s.body, tag + 'post')
-            post.loops.append(LoopSummary(s, 'for', var, it, body_states, head.env, entry_env))
+            post.loops.append(LoopSummary(s, 'for', var, it, body_states, head_env, entry_env))
             post.trace.append('%d:for done' % ln)
             if s.orelse:
                 res.extend(self._block(s.orelse, post, fi, depth))
@@ -584,7 +585,7 @@ class Evaluator:
                 res.append(Exit('fall', None, post))
             for a in after:
                 a2 = self._havoc(a, set(), s.body, tag)
-                a2.loops.append(LoopSummary(s, 'for', var, it, body_states, head.env, entry_env))
+                a2.loops.append(LoopSummary(s, 'for', var, it, body_states, head_env, entry_env))
                 res.append(Exit('fall', None, a2))
         return res
 
